@@ -646,6 +646,66 @@ Proof.
   rewrite (Htl Hc), app_nil_r in Ht. exact Ht.
 Qed.
 
+Lemma same_k_gone k st st1 : same_k k st st1 -> pget k (r_peers st) = None ->
+  pget k (r_peers st1) = None /\ wire_of k st1 = wire_of k st.
+Proof. intros Hs Hk. destruct (same_k_facts _ _ _ Hs) as (Hw & _ & Hn & _). split; [apply Hn; exact Hk|exact Hw]. Qed.
+
+Lemma rstep_gone st o ro st1 k : rstep st o = (ro, st1) -> pget k (r_peers st) = None ->
+  (forall j, o = RAttach j -> j <> k) ->
+  (forall r, ro = Some r -> targets k r = false) /\ pget k (r_peers st1) = None /\ wire_of k st1 = wire_of k st.
+Proof.
+  intros H Hk Hat. destruct o as [j|j|j a|j l|m]; cbn [rstep] in H.
+  - inversion H; subst ro st1; clear H. split; [discriminate|]. apply same_k_gone; [|exact Hk].
+    unfold same_k. cbn [r_peers r_gone]. rewrite pget_app, Hk. cbn [pget p_id].
+    replace (j =? k) with false by (symmetry; apply N.eqb_neq; apply Hat; reflexivity). split; reflexivity.
+  - inversion H; subst ro st1; clear H. split; [discriminate|]. apply same_k_gone; [|exact Hk].
+    destruct (pget j (r_peers st)) as [p|] eqn:Ej; [|split; reflexivity].
+    assert (Hne : j <> k) by (intros ->; congruence).
+    unfold same_k. cbn [r_peers r_gone pget]. rewrite (pget_id _ _ _ Ej).
+    replace (j =? k) with false by (symmetry; apply N.eqb_neq; exact Hne).
+    rewrite pget_pdel_other by congruence. split; reflexivity.
+  - inversion H; subst ro st1; clear H. split; [discriminate|]. apply same_k_gone; [|exact Hk].
+    unfold same_k. cbn [r_peers r_gone]. split; [apply pv_retr|reflexivity].
+  - inversion H; subst ro st1; clear H. split; [discriminate|]. apply same_k_gone; [|exact Hk].
+    unfold same_k. cbn [r_peers r_gone]. split; [apply pv_retr|reflexivity].
+  - destruct (send st m) as [r st1'] eqn:Es. inversion H; subst ro st1'; clear H.
+    assert (Et : targets k r = false).
+    { destruct (targets k r) eqn:Et; [|reflexivity]. exfalso.
+      exact (proj2 (send_rotation_shrinks _ _ _ _ Es) k Et Hk). }
+    destruct (send_touches_one _ _ _ _ Es k Et) as [Hw Hp].
+    split; [intros r0 E; inversion E; subst; exact Et|]. split; [rewrite Hp; exact Hk|exact Hw].
+Qed.
+
+(** once the socket has let go of connection k - for whatever reason - nothing is ever routed to it again,
+    it stays released and its wire does not change *)
+Theorem gone_never_targeted : forall ops st rs st' k,
+  pget k (r_peers st) = None -> ~ In k (attached ops) -> rrun st ops = (rs, st') ->
+  (forall r, In r rs -> targets k r = false) /\ pget k (r_peers st') = None /\ wire_of k st' = wire_of k st.
+Proof.
+  induction ops as [|o ops IH]; intros st rs st' k Hk Hat Hrun; cbn [rrun] in Hrun.
+  - inversion Hrun; subst. split; [intros r []|]. split; [exact Hk|reflexivity].
+  - destruct (rstep st o) as [ro st1] eqn:Est. destruct (rrun st1 ops) as [rs1 st2] eqn:Erun.
+    inversion Hrun; subst rs st2; clear Hrun.
+    cbn [attached flat_map] in Hat. fold (attached ops) in Hat. rewrite in_app_iff in Hat.
+    destruct (rstep_gone _ _ _ _ k Est Hk) as (Hr & Hk1 & Hw1).
+    { intros j -> ->. apply Hat. left. left. reflexivity. }
+    destruct (IH st1 rs1 st' k Hk1 (fun X => Hat (or_intror X)) Erun) as (Hrs & Hk2 & Hw2).
+    split; [|split; [exact Hk2|rewrite Hw2; exact Hw1]].
+    intros r Hin. apply in_app_iff in Hin as [Hin|Hin]; [|apply Hrs; exact Hin].
+    destruct ro as [r0|]; [|destruct Hin]. destruct Hin as [<-|[]]. apply Hr. reflexivity.
+Qed.
+
+(** in particular after a failed write: whatever happens afterwards *)
+Theorem failed_never_targeted : forall st m k e st1 ops rs st2,
+  NoDup (map p_id (r_peers st)) -> NoDup (r_rr st) ->
+  send st m = (RErr k e, st1) -> ~ In k (attached ops) -> rrun st1 ops = (rs, st2) ->
+  (forall r, In r rs -> targets k r = false) /\ pget k (r_peers st2) = None /\ wire_of k st2 = wire_of k st1.
+Proof.
+  intros st m k e st1 ops rs st2 Hd Hr Hs Hat Hrun.
+  destruct (send_err_forgets _ _ _ _ _ Hs Hd Hr) as (Hk & _ & _).
+  exact (gone_never_targeted ops st1 rs st2 k Hk Hat Hrun).
+Qed.
+
 (** non-vacuity: three peers, the second one's connection breaks after 3 octets *)
 Example rr_example :
   let ops := [RAttach 1; RAttach 2; RAttach 3; RPlan 2 [Wrote 3; WErr 1];
@@ -668,4 +728,6 @@ Print Assumptions rr_rotation_step.
 Print Assumptions rr_full_round.
 Print Assumptions rr_history_prefix.
 Print Assumptions rr_history_complete.
+Print Assumptions gone_never_targeted.
+Print Assumptions failed_never_targeted.
 Print Assumptions rr_example.
